@@ -22,3 +22,9 @@ def run(ctx, rep):
     from ..rules import more3
     more3.rule_cursor_step(mod, rep)
     more3.rule_langs_rows(mod, rep)
+    from ..rules import state
+    state.rule_state(mod, rep)          # the kernels are re-entrant: no static-duration work buffers
+    from ..rules import more4
+    more4.rule_copy_source(mod, rep)
+    from ..rules import more4
+    more4.rule_extent_pairs(mod, rep)
